@@ -289,6 +289,9 @@ pub fn check_e1(ctx: &Ctx, prop: Prop, out: &mut Outcome, q: u32, t: u32) {
 /// medium scale (capacities 64..=400, 600..=2500 ops, near-uniform keys): ghost lists of ~100
 /// entries, ARC targets in the hundreds, segments that fill and drain many times
 pub fn check_e1_medium(ctx: &Ctx, prop: Prop, out: &mut Outcome, q: u32, t: u32) {
+    if ctx.scale < 0.1 {
+        return;
+    }
     let mut profile = profile_for(prop, ctx.tier == Tier::Thorough);
     profile.medium = true;
     profile.min_ops = 600;
@@ -711,6 +714,10 @@ pub fn check_arc_grid(ctx: &Ctx, out: &mut Outcome) {
 /// large-scale pass (10^3 .. 1.3 * 10^5 entries): code gated by size constants
 pub fn check_big(ctx: &Ctx, prop: crate::big::BigProp, kinds: &[Kind], out: &mut Outcome, q: u32, t: u32) {
     use crate::big::*;
+    // (the Miri sample runs at a tiny scale: a prefill of 10^5 entries is out of its reach)
+    if ctx.scale < 0.1 {
+        return;
+    }
     let th = ctx.tier == Tier::Thorough;
     let kinds = kinds.to_vec();
     let strat = move || big_strategy(kinds.clone(), th);
